@@ -86,8 +86,12 @@ class Runner:
                 hist.append([[t, v] for t, v in f.history.items()])
         if isinstance(getattr(st, "history", None), dict) and st.history:
             hist.append([[t, v] for t, v in st.history.items()])
+        books = []
+        for con in self.ep.contracts:
+            h = env.exchange[con].history
+            books.append([list(h["time"]), list(h["bid_price"]), list(h["ask_price"])])
         tr = env.broker.track_record
-        return {"steps": self.outs, "log": log, "feature_history": hist, "n_records": len(tr),
+        return {"steps": self.outs, "quote_history": books, "log": log, "feature_history": hist, "n_records": len(tr),
                 "holdings": sorted([[k.symbol, v] for k, v in env.broker._holdings_quantity.items()],
                                    key=lambda x: x[0])}
 
